@@ -483,4 +483,84 @@ func runC06(w *W) {
 		}
 		w.Report(Finding{Kind: "script", Key: "script@" + class, Input: fmt.Sprintf("%q", sc.Text), InputHex: hexs(in), Detail: detail})
 	}
+
+	// long scripts: thousands of statements drawn from a handful of short pieces — anything that accumulates across
+	// statements (a counter, a cache, a buffer position) shows up only here
+	report := func(idx int, text string, pieces []*piece, desc string) {
+		in := []byte(text)
+		w.Begin(idx, in, desc)
+		w.Eval(in, true)
+		w.Count(strings.SplitN(desc, ":", 2)[0])
+		class, detail := c06Diff(text, pieces)
+		if class == "" {
+			return
+		}
+		w.Count("differs:" + class)
+		w.Report(Finding{Kind: "script", Key: "script@" + class + "@" + strings.SplitN(desc, ":", 2)[0], Input: fmt.Sprintf("%q", trunc(text, 1500)), InputHex: hexs(in), Detail: trunc(detail, 1500)})
+	}
+	nLong := w.pickN(32, 400)
+	for k := 0; k < nLong; k++ {
+		idx, mine := w.Case()
+		if !mine {
+			continue
+		}
+		r := NewRng(w.Seed, uint64(idx), 61)
+		var kinds []*piece
+		for len(kinds) < 2+r.Intn(5) {
+			kinds = append(kinds, pp.pickPiece(r, 120))
+		}
+		// always have statements with parenthesised subqueries / nested parentheses among them
+		for _, t := range []string{"SELECT (SELECT 1) AS a", "SELECT * FROM (SELECT 1)", "SELECT ((1))", "WITH x AS (SELECT 1) SELECT * FROM x", "SELECT a IN (SELECT 1)"} {
+			if r.Chance(1, 2) {
+				if pc := pp.qualify(t, "special"); pc != nil {
+					kinds = append(kinds, pc)
+				}
+			}
+		}
+		cnt := 1100 + r.Intn(1500)
+		pieces := make([]*piece, cnt)
+		for i := range pieces {
+			pieces[i] = kinds[r.Intn(len(kinds))]
+		}
+		report(idx, joinPlain(pieces), pieces, fmt.Sprintf("longscript:%d", cnt))
+	}
+
+	// sliding window: a probe statement with two-character tokens, comments and quotes placed at every offset around
+	// the 4096 / 8192 byte marks of the script (read-buffer boundaries)
+	first := pp.qualify("SELECT 1", "special")
+	last := pp.qualify("SELECT 2", "special")
+	probes := []string{"SELECT 1 -- first; second\n + 2", "SELECT 'it''s; here' AS a", "SELECT 1 /* a; b */ + 2", "SELECT a <= b, c != d, e <> f, g || h, i::UInt8, x -> y", "SELECT 1.5e3, .5, a.1, db.02_t, 1_000",
+		"SELECT $$a;b$$, x'4142', {p:UInt8}", "SELECT \"a;b\", `c;d` FROM t", "SELECT a /* /* nested; */ */ , b # c;\n FROM t", "SELECT a >= 1 AND b <=> 2 OR NOT c"}
+	nProbe := w.pickN(len(probes), len(probes)+60)
+	for k := 0; k < nProbe; k++ {
+		r := NewRng(w.Seed, uint64(k), 62)
+		var pr *piece
+		if k < len(probes) {
+			pr = pp.qualify(probes[k], "special")
+		} else {
+			pr = pp.pickPiece(r, 80)
+		}
+		if pr == nil || first == nil || last == nil {
+			continue
+		}
+		for _, mark := range []int{4096, 8192} {
+			for start := mark - len(pr.Text) - 3; start <= mark+2; start++ {
+				idx, mine := w.Case()
+				if !mine {
+					continue
+				}
+				// "SELECT 1" + filler comment + ";" occupies exactly `start` bytes
+				fill := start - len("SELECT 1") - len(" /**/;")
+				if fill < 0 {
+					continue
+				}
+				text := "SELECT 1 /*" + strings.Repeat("x", fill) + "*/;" + pr.Text
+				if pr.NeedNL {
+					text += "\n"
+				}
+				text += ";SELECT 2"
+				report(idx, text, []*piece{first, pr, last}, fmt.Sprintf("window:%d@%d", mark, start))
+			}
+		}
+	}
 }
